@@ -252,10 +252,10 @@ def run(ctx):
 
     # V
     if ctx.quick:
-        plan = [(520, 5, 'clean', 0), (300, 5, 'wild', 100_000)]
+        plan = [(400, 5, 'clean', 0), (560, 5, 'wild', 100_000)]
         other = 40
     else:
-        plan = [(2500, 16, 'clean', 0), (5000, 20, 'wild', 100_000)]
+        plan = [(2500, 16, 'clean', 0), (6000, 20, 'wild', 100_000)]
         other = 400
     for n, steps, profile, base in plan:
         specs = history_specs(ctx, n, steps, profile, base)
